@@ -149,6 +149,12 @@ def check(run: Run) -> None:
                 n_calls += 1
                 cfg = cfg or CFG(fi.node)
                 arg = n.args[0]
+                # a local bound once to `<parameter>.value` (an alias written for readability) stands for that attribute
+                if isinstance(arg, ast.Name) and arg.id not in [a.arg for a in fi.node.args.args]:  # type: ignore[attr-defined]
+                    adefs = [a.value for a in walk_no_nested(fi.node) if isinstance(a, ast.Assign) and len(a.targets) == 1 and isinstance(a.targets[0], ast.Name) and a.targets[0].id == arg.id]
+                    others = [a for a in walk_no_nested(fi.node) if isinstance(a, (ast.AugAssign, ast.AnnAssign, ast.NamedExpr, ast.For, ast.comprehension)) and any(isinstance(x, ast.Name) and x.id == arg.id and isinstance(x.ctx, ast.Store) for x in ast.walk(a.target))]
+                    if len(adefs) == 1 and not others and isinstance(adefs[0], ast.Attribute) and adefs[0].attr == "value" and isinstance(adefs[0].value, ast.Name) and adefs[0].value.id in [a.arg for a in fi.node.args.args]:  # type: ignore[attr-defined]
+                        arg = adefs[0]
                 probe = arg if n.func.id == "emit_value" else ast.Attribute(value=arg, attr="value", ctx=ast.Load())
                 nodes = cfg.node_for_stmt_containing(n)
                 ok = _guarded_not_absent(cfg, nodes, probe, _comprehension_filters(n))
